@@ -11,7 +11,7 @@
 (*                 missing bytes, including all of them                    *)
 (* There is no rejecting terminal state for non-empty input.               *)
 (***************************************************************************)
-EXTENDS Opcodes, TLC
+EXTENDS DisasmLib
 
 VARIABLES code,     \* bytes consumed so far
           pending,  \* immediate bytes still expected
@@ -20,22 +20,6 @@ VARIABLES code,     \* bytes consumed so far
           status    \* "reading" | "complete" | "truncated"
 
 vars == <<code, pending, pushAt, out, status>>
-
-(* Entry kinds:                                                            *)
-(*   "push"     a PUSHn with its whole immediate present                   *)
-(*   "imm"      a byte of a complete immediate: NOT an instruction         *)
-(*   "jumpdest" a JUMPDEST at an instruction boundary                      *)
-(*   "op"       any other assigned opcode at an instruction boundary       *)
-(*   "invalid"  an unassigned byte at an instruction boundary, or 0xfe     *)
-(*   "trunc"    the PUSH byte and the partial immediate of a PUSH that the *)
-(*              end of the code cut short; tolerated, never a jump target  *)
-Entry(k, b) == [k |-> k, b |-> b]
-
-KindAtBoundary(b) ==
-    IF IsPush(b) THEN "push"
-    ELSE IF b = JUMPDEST THEN "jumpdest"
-    ELSE IF b \in Assigned /\ b # INVALID THEN "op"
-    ELSE "invalid"
 
 Init ==
     /\ code = << >> /\ pending = 0 /\ pushAt = 0 /\ out = << >> /\ status = "reading"
@@ -70,30 +54,6 @@ Next(Alphabet) ==
     \/ \E b \in Alphabet : ReadOp(b) \/ ReadImm(b)
     \/ EndComplete
     \/ EndTruncated
-
--------------------------------------------------------------------------------
-(* The same machine as a function of a whole byte string, for acceptors.  *)
-
-RECURSIVE Run(_, _, _, _, _)
-Run(bytes, i, pend, pAt, acc) ==
-    IF i > Len(bytes)
-    THEN IF pend = 0 THEN [status |-> "complete", out |-> acc]
-         ELSE [status |-> "truncated",
-               out |-> [j \in 1..Len(acc) |-> IF j >= pAt THEN Entry("trunc", acc[j].b) ELSE acc[j]]]
-    ELSE LET b == bytes[i] IN
-         IF pend > 0 THEN Run(bytes, i + 1, pend - 1, pAt, Append(acc, Entry("imm", b)))
-         ELSE Run(bytes, i + 1, PushLen(b), IF IsPush(b) THEN i ELSE pAt,
-                  Append(acc, Entry(KindAtBoundary(b), b)))
-
-Disassemble(bytes) == Run(bytes, 1, 0, 0, << >>)
-
-(* 0-based offsets of valid jump destinations. *)
-JumpDests(bytes) ==
-    LET d == Disassemble(bytes).out IN {i - 1 : i \in {j \in 1..Len(d) : d[j].k = "jumpdest"}}
-
-(* 0-based offsets that are instruction boundaries. *)
-Boundaries(bytes) ==
-    LET d == Disassemble(bytes).out IN {i - 1 : i \in {j \in 1..Len(d) : d[j].k \notin {"imm"}}}
 
 -------------------------------------------------------------------------------
 (* Properties of the design (C10). *)
